@@ -21,6 +21,11 @@ def build_program(rng, last_kind=None, predefined=None):
         size = 0
         for _ in range(rng.randrange(1, 4)):
             ln = gen_prog.rand_byte_line(rng, gen_prog.layout_isa(16), big=rng.random() < 0.3)
+            if rng.random() < 0.15:
+                # a string line (bare, where the ISA allows it, or behind .cstr): bytes like any others, muted like any others
+                txt_ = rng.choice(['AB', 'x', 'mute me', 'Zq9'])
+                ln = {'k': 'bytes', 'bytes': (txt_.encode() + b'\0').hex(), 'text': rng.choice(['"{}"', '"{}"', '.cstr "{}"']).format(txt_),
+                      'string_line': True}
             lines.append(ln)
         segs.append({'lines': lines})
     isa = gen_prog.layout_isa(16, endian=rng.choice(['big', 'little']))
@@ -41,6 +46,7 @@ def build_program(rng, last_kind=None, predefined=None):
         data = [{'name': 'pre_blk', 'address': pa, 'value': rng.randrange(0, 256), 'size': psz}]
         isa = gen_prog.layout_isa(16, endian=isa['general']['endian'], data=data)
         cur = pa + psz + rng.choice([0, 2])
+    isa['general']['allow_embedded_strings'] = True
     order = list(range(len(segs)))
     if rng.random() < 0.5:
         rng.shuffle(order)
@@ -131,7 +137,8 @@ class C03(core.Check):
                                        'e:absent', 'e:=last', 'e:mid-line', 'e:in-gap', 'e:>last', 'e:=last+1',
                                        'e:mid-line/same-line', 'last:byte', 'last:label', 'last:muted', 'last:zero-length',
                                        'last:org', 'fill!=0', 'predefined-data', 'muted-region', 'stale-longer-image-present', 'mute-around-include',
-                                       's:below-redefined-global', 'e:above-redefined-global', 'e:beyond-address-space']}
+                                       's:below-redefined-global', 'e:above-redefined-global', 'e:beyond-address-space',
+                                       'muted-embedded-string']}
 
     def make_case(self, isa, lines, res, lk, s, e, fill, tags):
         fn, text = isamod.render_isa(isa, 'json')
@@ -180,6 +187,8 @@ class C03(core.Check):
                     tags.append('predefined-data')
                 if any(l.get('muted') and l['k'] in layout.BYTE_KINDS for l in lines):
                     tags.append('muted-region')
+                if any(l.get('muted') and l.get('string_line') and l['text'].startswith('"') for l in lines):
+                    tags.append('muted-embedded-string')
                 yield self.make_case(isa, lines, res, lk, s, e, fill, tags)
         # muting that is entered, left or deepened around an #include: the addresses of muted bytes get the fill value
         isa_i = gen_prog.layout_isa(16)
